@@ -188,13 +188,18 @@ pub fn c01_focus() -> Focus {
 pub fn c01_scn(name: &str, full: bool) -> ChatScn {
     // #y is declared in the configuration: it outlives its members, and who is on it is
     // decided by the history all the same (a member that disconnected is not a member)
-    let cfg = Cfg { label: "preconfigured-#y".into(), channels: vec![crate::scn::CfgChan { name: "#y".into(), ..Default::default() }], ..Default::default() };
+    // (its configured rank lists name users who may be connected without being members)
+    let cfg = Cfg { label: "preconfigured-#y".into(), channels: vec![crate::scn::CfgChan { name: "#y".into(), operators: vec!["bob".into()], voices: vec!["carol".into(), "dave".into()], ..Default::default() }], ..Default::default() };
     let mut s = ChatScn::new(name, cfg, vec![part(0, "alice", "alicia", "au"), part(1, "bob", "bobby", "bu"), part(2, "carol", "caro", "cu"), part(3, "dave", "davy", "du")], 0);
     let churn: Vec<&'static str> = if full {
         vec!["JOIN #x", "JOIN #y", "JOIN #x,#y", "JOIN #y,#z", "PART #x", "KICK #x {peer}", "NICK {alt}", "NICK {peer}", "MODE #x +v {peer}", "MODE #x +h {peer}", "MODE #x +o {peer}", "MODE #x -o {peer}", "MODE #x +q {peer}", "MODE #x +n", "MODE #x -n", "MODE #x +s", "CAP END", "QUIT"]
     } else {
-        vec!["JOIN #x", "JOIN #y", "JOIN #x,#y", "PART #x", "KICK #x {peer}", "NICK {alt}", "NICK {peer}", "MODE #x +v {peer}", "MODE #x +o {peer}", "MODE #x +n", "CAP END", "QUIT"]
+        vec!["JOIN #x", "JOIN #y", "PART #x", "KICK #x {peer}", "NICK {alt}", "NICK {peer}", "MODE #x +v {peer}", "MODE #x +o {peer}", "MODE #x +n", "QUIT"]
     };
+    // the quick tier explores comma JOINs and registration commands of registered clients in
+    // a scenario of their own (`c01-audience-lists`): the product with the rank/kick/rename
+    // churn is the thorough tier's
+    let churn: Vec<&'static str> = if name.ends_with("-lists") { vec!["JOIN #x", "JOIN #y", "JOIN #x,#y", "PART #x", "CAP END", "QUIT"] } else { churn };
     for slot in 0..3 {
         for t in &churn {
             s.alphabet_for.push((slot, t));
@@ -205,7 +210,7 @@ pub fn c01_scn(name: &str, full: bool) -> ChatScn {
     s.focus = Focus::state_only(&[Cat::Membership, Cat::Ranks, Cat::UserExistence, Cat::ChanExistence, Cat::UserIdentity, Cat::ChanFlags]);
     s.invariants = vec!["rank-set", "membership-symmetry", "dangling-member"];
     let mut probes: Vec<&'static str> = vec![];
-    for t in ["PRIVMSG #x :hi", "PRIVMSG #x :a b :c d", "PRIVMSG #x ::lead", "PRIVMSG #x :", "PRIVMSG #x :trail  ", "NOTICE {peer} : ", "NOTICE #x :hi", "PRIVMSG {peer} :hi", "PRIVMSG {peer} :a b :c d", "NOTICE {peer} :", "PRIVMSG {me} :hi", "PRIVMSG #x,{peer} :hi", "NOTICE #x,{peer} :hi", "PRIVMSG #x,#x :hi", "PRIVMSG {peer},{peer} :hi", "PRIVMSG #x,{peer},#x :hi", "NOTICE {peer},#x,nosuch,{peer} :hi", "PRIVMSG #x,nosuch,#nochan :hi", "NOTICE #x,nosuch,#nochan :hi", "PRIVMSG @#x :hi", "PRIVMSG +#x :hi", "NOTICE +#x :hi", "PRIVMSG %#x :hi", "PRIVMSG ~#x :hi", "PRIVMSG @+#x :hi", "NOTICE @+#x :hi", "PRIVMSG #y :hi", "PRIVMSG #y,#x :a b"] {
+    for t in ["PRIVMSG #x :hi", "PRIVMSG #x :a b :c d", "PRIVMSG #x ::lead", "PRIVMSG #x :", "PRIVMSG #x :trail  ", "NOTICE {peer} : ", "NOTICE #x :hi", "PRIVMSG {peer} :hi", "PRIVMSG {peer} :a b :c d", "NOTICE {peer} :", "PRIVMSG {me} :hi", "PRIVMSG #x,{peer} :hi", "NOTICE #x,{peer} :hi", "PRIVMSG #x,#x :hi", "PRIVMSG {peer},{peer} :hi", "PRIVMSG #x,{peer},#x :hi", "NOTICE {peer},#x,nosuch,{peer} :hi", "PRIVMSG #x,nosuch,#nochan :hi", "NOTICE #x,nosuch,#nochan :hi", "PRIVMSG @#x :hi", "PRIVMSG +#x :hi", "NOTICE +#x :hi", "PRIVMSG %#x :hi", "PRIVMSG ~#x :hi", "PRIVMSG @+#x :hi", "NOTICE @+#x :hi", "PRIVMSG #y :hi", "PRIVMSG #y,#x :a b", "PRIVMSG @#y :hi", "NOTICE +#y :hi"] {
         probes.push(t);
     }
     s.probes = probes;
@@ -234,7 +239,7 @@ pub fn c01_ghost(full: bool) -> ChatScn {
 pub fn c10_scn(name: &str, full: bool) -> ChatScn {
     let mut s = ChatScn::new(name, Cfg::default(), vec![part(0, "alice", "alicia", "au"), part(1, "bob", "bobby", "bu"), part(2, "carol", "caro", "cu")], 0);
     s.prelude = vec![(0, "JOIN #c".into()), (2, "JOIN #c".into())];
-    let mut a: Vec<&'static str> = vec!["MODE #c +n", "MODE #c -n", "MODE #c +s", "MODE #c -s", "MODE #c +m", "MODE #c -m", "MODE #c +b bob!*@*", "MODE #c -b bob!*@*", "MODE #c +e bob!*@*", "MODE #c -e bob!*@*", "MODE #c +e zed!*@*", "MODE #c +v bob", "MODE #c -v bob",
+    let mut a: Vec<&'static str> = vec!["MODE #c +n", "MODE #c -n", "MODE #c +s", "MODE #c -s", "MODE #c +m", "MODE #c -m", "MODE #c +b bob!*@*", "MODE #c -b bob!*@*", "MODE #c +e bob!*@*", "MODE #c -e bob!*@*", "MODE #c +e zed!*@*", "MODE #c +v bob", "MODE #c -v bob", "MODE #c -v bobby",
         // a mask whose literal run after the star overlaps itself in the sender's host (127.0.0.1)
         "MODE #c +b *!*@*.0.1"];
     if full {
@@ -252,6 +257,8 @@ pub fn c10_scn(name: &str, full: bool) -> ChatScn {
     }
     // mode/membership/nick/away steps are judged only on the state that determines who may speak
     s.focus = Focus::state_only(&[Cat::Membership, Cat::Ranks, Cat::ChanFlags, Cat::ChanLists, Cat::Away, Cat::UserIdentity]);
+    // who "has voice or a higher rank" is kept in two places by the server; they agree
+    s.invariants = vec!["rank-set", "membership-symmetry"];
     for t in ["PRIVMSG #c :x y", "NOTICE #c :x y", "PRIVMSG carol :x", "NOTICE carol :x", "PRIVMSG nosuch :x", "NOTICE nosuch :x", "PRIVMSG #nochan :x", "NOTICE #nochan :x", "PRIVMSG #c,carol,nosuch :x", "NOTICE #c,carol,nosuch,#nochan :x", "PRIVMSG @#c :x", "NOTICE @#c :x"] {
         s.probes_for.push((1, t));
     }
@@ -327,7 +334,7 @@ pub fn c07_scn(name: &str, full: bool) -> ChatScn {
     // carol is a second member from the start: a limit can be set below the occupancy
     let mut s = ChatScn::new(name, cfg, vec![part(0, "alice", "alicia", "au"), part(1, "bob", "bobby", "bu"), part(2, "carol", "caro", "cu")], 0);
     s.prelude = vec![(0, "JOIN #c".into()), (2, "JOIN #c".into())];
-    let mut a: Vec<&'static str> = vec!["MODE #c +i", "MODE #c -i", "MODE #c +k k", "MODE #c +k j", "MODE #c -k", "MODE #c +b bob!*@*", "MODE #c -b bob!*@*", "MODE #c +e bob!*@*", "MODE #c -e bob!*@*", "MODE #c +e zed!*@*", "MODE #c +I bob!*@*", "MODE #c -I bob", "MODE #c +l 1", "MODE #c +l 2", "MODE #c +l 3", "MODE #c -l", "INVITE bob #c", "KICK #c bob"];
+    let mut a: Vec<&'static str> = vec!["MODE #c +i", "MODE #c -i", "MODE #c +k k", "MODE #c +k j", "MODE #c -k", "MODE #c +b bob!*@*", "MODE #c -b bob!*@*", "MODE #c +e bob!*@*", "MODE #c -e bob!*@*", "MODE #c +e zed!*@*", "MODE #c +I bob!*@*", "MODE #c -I bob", "MODE #c +l 1", "MODE #c +l 2", "MODE #c +l 3", "MODE #c -l", "INVITE bob #c", "INVITE bobby #c", "KICK #c bob"];
     if full {
         a.extend(["MODE #c +b *!*@127.0.0.1", "MODE #c -I bob!*@*", "MODE #c +I zed", "MODE #c +b bobby"]);
     }
@@ -340,7 +347,7 @@ pub fn c07_scn(name: &str, full: bool) -> ChatScn {
     s.focus = c07_focus();
     // the quota counts the channels the user is really in: both sides of the membership relation agree
     s.invariants = vec!["membership-symmetry", "dangling-member"];
-    s.spec_skip = Some(Box::new(|a| !matches!(a, Act::Send(_, l) if l.starts_with("JOIN") || l.starts_with("MODE") || l.starts_with("INVITE") || l.starts_with("KICK") || l.starts_with("PART"))));
+    s.spec_skip = Some(Box::new(|a| !matches!(a, Act::Send(_, l) if l.starts_with("JOIN") || l.starts_with("MODE") || l.starts_with("INVITE") || l.starts_with("KICK") || l.starts_with("PART") || l.starts_with("NICK"))));
     s.probes_for = vec![(0, "NAMES #c")];
     s.probe_focus = Some(Focus { cats: vec![], relays: false, relay_verbs: None, actor: true, actor_codes: Some(vec!["353", "366"]), closes: false });
     s
@@ -834,6 +841,10 @@ pub fn c15_scn(name: &str, full: bool) -> ChatScn {
                 if variant != n {
                     acts.push(Act::Send(0, format!("NICK {}", variant)));
                 }
+                // a nickname beyond the advertised NICKLEN: accepted whole or refused, never cut
+                if n.len() <= 200 {
+                    acts.push(Act::Send(0, format!("NICK {}", "L".repeat(201))));
+                }
             }
         }
         acts
@@ -842,7 +853,13 @@ pub fn c15_scn(name: &str, full: bool) -> ChatScn {
     s.spec_skip = Some(Box::new(|a| !matches!(a, Act::Send(_, l) if l.starts_with("NICK")) && !matches!(a, Act::Eof(3))));
     // "and nothing else": the server's counters of invisible users and operators are not touched by a rename
     s.invariants = vec!["membership-symmetry", "dangling-member", "rank-set", "dangling-wallops", "wallops-set", "invisible-count", "operators-count", "max-users"];
-    s.state_oracle = Some(Box::new(c15_probes));
+    s.state_oracle = Some(Box::new(|scn, w, v, g| {
+        // the identity is filed under one name: the connection's own idea of its nickname and
+        // the user table agree (ownership oracle of C02)
+        let mut out = super::reg::ownership_bijection(v);
+        out.extend(c15_probes(scn, w, v, g));
+        out
+    }));
     s
 }
 
@@ -1238,6 +1255,7 @@ pub fn plan(property: &str, quick: bool) -> Plan {
             assumptions: vec!["a nick target equal to the sender may yield 0 or 1 copy (statement ambiguous)".into(), "deliveries to different receivers commute; queues are drained in slot order".into()],
             parts: vec![
                 Part::Bfs(Box::new(c01_scn("c01-audience", !quick)), lim(if quick { 5 } else { 6 }, 2_000_000, t(40.0, 900.0))),
+                Part::Bfs(Box::new(c01_scn("c01-audience-lists", false)), lim(if quick { 5 } else { 6 }, 2_000_000, t(40.0, 900.0))),
                 Part::Bfs(Box::new(c01_ghost(!quick)), lim(if quick { 6 } else { 8 }, 2_000_000, t(20.0, 600.0))),
             ],
         },
@@ -1290,9 +1308,11 @@ pub fn plan(property: &str, quick: bool) -> Plan {
             rule: "(a) E-SEQ BFS: 3 users (one server operator) create, configure, empty (PART, KICK, QUIT, EOF, KILL in any combination) and re-create #x; oracle: first JOIN => fresh channel with founder+operator; last member gone by any exit => channel absent (snapshot, LIST, LUSERS count, 403); re-JOIN indistinguishable from a first creation; (b) configuration lattice: every subset of 16 settings of a predefined #p (quick: subsets of size <=2 and >=14) x script start-up/listed joins/other joins/both leave/listed re-joins".into(),
             assumptions: vec![],
             parts: vec![
-                Part::Bfs(Box::new(c16_scn("c16-lifecycle", !quick)), lim(if quick { 7 } else { 7 }, 3_000_000, t(30.0, 900.0))),
+                Part::Bfs(Box::new(c16_scn("c16-lifecycle", !quick)), lim(if quick { 7 } else { 7 }, 3_000_000, t(55.0, 900.0))),
                 Part::Bfs(Box::new(c16_quota_scn("c16-quota")), lim(if quick { 5 } else { 7 }, 1_000_000, t(10.0, 300.0))),
                 Part::Bfs(Box::new(c16_dup_scn("c16-repeated-names")), lim(if quick { 4 } else { 6 }, 1_000_000, t(10.0, 300.0))),
+                // a channel lives as long as a member does - whatever connections that never registered do
+                Part::Bfs(Box::new(super::ghost::ghost_scn("c16-ghost", &[Cat::ChanExistence, Cat::Membership, Cat::Ranks, Cat::Topic, Cat::UserExistence], !quick)), lim(if quick { 6 } else { 7 }, 2_000_000, t(20.0, 600.0))),
                 Part::Bfs(Box::new(c16_ranks_scn("c16-configured-ranks", !quick)), lim(if quick { 5 } else { 6 }, 2_000_000, t(20.0, 600.0))),
                 Part::Custom("fun:c16-lattice".into(), Box::new(move || c16_lattice(quick))),
             ],
@@ -1307,6 +1327,7 @@ pub fn scenarios(property: &str) -> Vec<Box<dyn Scenario>> {
         match property {
             "C01" => {
                 v.push(Box::new(c01_scn("c01-audience", full)));
+                v.push(Box::new(c01_scn("c01-audience-lists", false)));
                 v.push(Box::new(c01_ghost(full)));
             }
             "C10" => {
@@ -1322,6 +1343,7 @@ pub fn scenarios(property: &str) -> Vec<Box<dyn Scenario>> {
                 v.push(Box::new(c16_quota_scn("c16-quota")));
                 v.push(Box::new(c16_dup_scn("c16-repeated-names")));
                 v.push(Box::new(c16_ranks_scn("c16-configured-ranks", full)));
+                v.push(Box::new(super::ghost::ghost_scn("c16-ghost", &[Cat::ChanExistence, Cat::Membership, Cat::Ranks, Cat::Topic, Cat::UserExistence], full)));
             }
             _ => {}
         }
